@@ -1,5 +1,5 @@
 (* C03 — what the correspondence check evaluates on every case. *)
-From Yv Require Export Common.Base C03.Defs C03.Model C03.Spec.
+From Yv Require Export Common.Base C03.Defs C03.Model C03.Spec C03.ModelShell C03.SpecShell.
 
 (* A case is either
    - Rust's classification of the 128 ASCII code points (1 = is_whitespace,
@@ -15,16 +15,30 @@ Inductive deep_out :=
 | DCrash (signal : N)       (* it was killed by a signal (0 = other abnormal exit) *)
 | DTimeout.
 
+(* what the shell did with `args "$(( ... ))"`: the field (and the variables read by
+   the EXIT trap), or an expansion error (and the variables read by the EXIT trap) *)
+Inductive sans :=
+| SaText (field : str) (final : env)
+| SaError (final : env)
+| SaPanic
+| SaOther.
+
 Inductive case :=
 | KAscii (tbl : list (N * N))
 | KEval (ucls : list (N * N)) (expression : str) (vars : env) (out : outcome)
+(* the same with Config { portable: true } *)
+| KPortable (ucls : list (N * N)) (expression : str) (vars : env) (out : outcome)
 (* the same through the whole shell: `args "$((expression))"` after assigning the
    variables, then the variables read back; only value / error is observable *)
 | KShell (ucls : list (N * N)) (expression : str) (vars : env) (ans : answer)
 (* deep nesting, evaluated in a child process with the inherited (bounded) stack:
    kind 0 = n nested parentheses around 1, kind 1 = n chained `!` before 1,
    kind 2 = n nested `?:` in the then-branch; no variables *)
-| KDeep (kind n : N) (out : deep_out).
+| KDeep (kind n : N) (out : deep_out)
+(* the arithmetic expansion of the shell with the nounset option on/off, read-only
+   variables, `$name` / `${name}` and nested `$(( ))` inside the text *)
+| KShellX (ucls : list (N * N)) (nounset_on : bool) (ro : list str) (text : list tunit)
+          (vars : env) (ans : sans).
 
 Fixpoint assoc_N (c : N) (tbl : list (N * N)) : option N :=
   match tbl with
@@ -59,6 +73,7 @@ Definition synerr_eqb (a b : synerr) : bool :=
 Definition everr_eqb (a b : everr) : bool :=
   match a, b with
   | InvalidVariableValue x, InvalidVariableValue y => str_eqb x y
+  | UnsetVariable x, UnsetVariable y | AssignReadOnly x, AssignReadOnly y => str_eqb x y
   | Overflow, Overflow | DivisionByZero, DivisionByZero
   | LeftShiftingNegative, LeftShiftingNegative | ReverseShifting, ReverseShifting
   | AssignmentToValue, AssignmentToValue => true
@@ -69,6 +84,7 @@ Definition cause_eqb (a b : cause) : bool :=
   match a, b with
   | CSyntax x, CSyntax y => synerr_eqb x y
   | CEval x, CEval y => everr_eqb x y
+  | CPortability, CPortability => true
   | _, _ => false
   end.
 
@@ -117,6 +133,34 @@ Definition deep_expected (kind n : N) : Z :=
    model inside Coq has a stack of its own) *)
 Definition deep_model_limit : N := 1000.
 
+Fixpoint unit_chars (u : tunit) : str :=
+  match u with
+  | ULit c => [c]
+  | UParam _ => []
+  | UArith us => flat_map unit_chars us
+  end.
+
+Definition shellx_verdict (m : mode) (cls : N -> N) (us : list tunit) (vars : env) (a : sans) : verdict :=
+  let oracle :=
+    match a, spec_shell_arith m cls us vars with
+    | SaPanic, _ => 6%N
+    | SaOther, _ => 7%N
+    | SaText s e, YOk s' e' =>
+        if negb (str_eqb s s') then 3%N else if negb (env_equiv e e') then 4%N else 0%N
+    | SaText _ _, YErr _ => 2%N
+    | SaError _, YOk _ _ => 5%N
+    | SaError e, YErr e' => if env_equiv e e' then 0%N else 4%N
+    end in
+  match oracle with
+  | 0%N =>
+      match a, shell_arith m cls us vars with
+      | SaText s e, XOk s' e' => if str_eqb s s' && env_equiv e e' then 0%N else 1%N
+      | SaError e, XErr e' => if env_equiv e e' then 0%N else 1%N
+      | _, _ => 1%N
+      end
+  | k => k
+  end.
+
 Definition run_case (c : case) : verdict :=
   match c with
   | KAscii tbl =>
@@ -133,6 +177,14 @@ Definition run_case (c : case) : verdict :=
         | 0%N => if outcome_eqb (run cls s vars) out then 0%N else 1%N
         | k => k
         end
+  | KPortable ucls s vars out =>
+      if negb (classified ucls s) then 99%N
+      else
+        let cls := cls_of ucls in
+        match oracle_portable cls s vars (answer_of out) with
+        | 0%N => if outcome_eqb (run_portable cls s vars) out then 0%N else 1%N
+        | k => k
+        end
   | KShell ucls s vars ans =>
       if negb (classified ucls s) then 99%N
       else
@@ -141,6 +193,9 @@ Definition run_case (c : case) : verdict :=
         | 0%N => if answer_eqb (answer_of (run cls s vars)) ans then 0%N else 1%N
         | k => k
         end
+  | KShellX ucls nu ro us vars a =>
+      if negb (classified ucls (flat_map unit_chars us)) then 99%N
+      else shellx_verdict (Mode nu ro) (cls_of ucls) us vars a
   | KDeep kind n out =>
       if (2 <? kind)%N then 99%N
       else
